@@ -742,8 +742,8 @@ impl ParserListener for Screen {
             .buffer
             .entry(self.cursor.y)
             .or_insert_with(HashMap::new);
-        for x in (self.cursor.x..self.columns + 1).rev() {
-            if x + count <= self.columns {
+        for x in (self.cursor.x..self.columns).rev() {
+            if x + count < self.columns {
                 let x_val = line.get(&x);
                 match x_val {
                     Some(val) => {
